@@ -443,11 +443,10 @@ def get_confirmed_edges_for_node(graph: nx.MultiDiGraph, node: DSGNode, include_
     for tgt_node, src_node in _traversed_to_update:
         _traversed[tgt_node].update(_traversed[src_node])
 
-    # Update cache only if this was the originally-requested start node
+    # Update cache only if this was the originally-requested start node: only its edge set is guaranteed to be complete
+    # (the sets of nodes traversed on the way miss the edges below nodes that had already been visited via another path)
     if conf_edges_cache is not None and is_request_start:
-        for start_node, edges in _traversed.items():
-            if start_node not in conf_edges_cache:
-                conf_edges_cache[start_node] = edges
+        conf_edges_cache[node] = confirmed_edges.copy()
 
     return confirmed_edges
 
